@@ -36,8 +36,7 @@ import G3D.Model.PlaneForms
     `atan2` and `sorted` produce (equal keys overwrite, keys ascend).
   * **Pyramid** objects are not part of `Obj`; `Pyramid(cp, p)` is the two-element list `[cp, p]` and a set of pyramids
     (identity-hashed, so `add` always appends) is kept flattened (`pySetAddM`).
-  * `hash(a) == hash(b)` is `pyHashEq` = the model's idealised equality (`Polygon.same`: equal hash sums are read as
-    equal vertex sets and equal carrier planes). -/
+  * `hash(a) == hash(b)` used as an equality test is NOT translated (fails closed): equal hashes do not imply equal objects. -/
 namespace G3D.PyRt
 open G3D V3
 
@@ -309,12 +308,6 @@ def pyNeM (a b : Val) : PyM Val := do
   let r ← pyEqM a b
   pure (pyNot r)
 
-/-- `hash(a) == hash(b)`: the model's idealised equality of hashable objects -/
-def pyHashEq (a b : Val) : PyM Val :=
-  match a, b with
-  | .obj x, .obj y => if objHashable x && objHashable y then pure (.bool (objSame x y)) else throw .typeMismatch
-  | _, _ => throw .typeMismatch
-
 /-- `item in container`: additionally the composite cells of the flat containers -/
 def pyInM (item container : Val) : PyM Val :=
   match container, item with
@@ -324,6 +317,8 @@ def pyInM (item container : Val) : PyM Val :=
   | .obj (.flat (.plane a)), .obj (.flat (.halfline h)) => pure (.bool (a.containsHalfLine h))
   | .obj (.flat (.seg s)), .obj (.flat (.seg t)) => pure (.bool (s.containsSeg t))
   | .obj (.flat (.halfline h)), .obj (.flat (.seg s)) => pure (.bool (h.containsSeg s))
+  -- `x in <list / tuple>`: some element is `x` or `== x` (the model's equality of the hashable kinds)
+  | .seq os, .obj x => if objHashable x then pure (.bool (os.any (objSame x ·))) else throw .typeMismatch
   | _, _ => pyContains container item
 
 /-- `other.in_(container)` -/
